@@ -101,10 +101,19 @@ def oracle_proto(case):
     except Exception as e:
         raise Violation("Protocol.diff/patch raised %r for files_a=%r files_b=%r" % (e, fa, fb), case,
                         "proto-raise:%s" % type(e).__name__)
-    got, want = dict(iter(C)), dict(iter(B))
-    if got != want:
-        raise Violation("A.patch(A.diff(B,%d)) != B: got %r want %r (A=%r)" % (n, got, want, dict(iter(A))), case,
+    got, want = list(iter(C)), list(iter(B))
+    if dict(got) != dict(want) or len(got) != len(want):
+        raise Violation("A.patch(A.diff(B,%d)) != B: got %r want %r (A=%r)" % (n, got, want, list(iter(A))), case,
                         "proto-mismatch")
+    if got != want:
+        raise Violation("A.patch(A.diff(B,%d)) has B's files in another order: got %r want %r" % (
+            n, [f for f, _ in got], [f for f, _ in want]), case, "proto-order")
+    try:
+        hc, hb = C.hash(), B.hash()
+    except Exception as e:
+        return d  # hashing needs a complete protocol description; not part of the statement
+    if hc != hb:
+        raise Violation("A.patch(A.diff(B,%d)) hashes to %s, B to %s" % (n, hc, hb), case, "proto-hash")
     return d
 
 
@@ -137,12 +146,17 @@ def proto_pair(draw):
             if ext == "mli" and draw(st.integers(0, 2)) == 0:
                 continue
             p = draw(text_pair(max_lines=8))
-            in_a = draw(st.integers(0, 5)) != 0
-            if in_a:
+            where = draw(st.sampled_from(["both", "both", "both", "both", "only-b", "only-a"]))
+            if where != "only-b":
                 fa.append(("%s.%s" % (nm, ext), p["a"]))
-            fb.append(("%s.%s" % (nm, ext), p["b"]))
+            if where != "only-a":
+                fb.append(("%s.%s" % (nm, ext), p["b"]))
+    if draw(st.integers(0, 2)) == 0:  # the second protocol lists its modules in another order
+        fb = draw(st.permutations(fb))
     if not fa:
-        fa.append((fb[0][0], "x\n"))
+        fa.append(("zz.ml", "x\n"))
+    if not fb and draw(st.booleans()):
+        fb.append(("yy.ml", "y\n"))
     return {"files_a": fa, "files_b": fb, "n": draw(st.integers(0, 5))}
 
 
